@@ -94,6 +94,9 @@ thread_local! {
     static LAST_PANIC: RefCell<Option<String>> = RefCell::new(None);
 }
 static HOOK: Once = Once::new();
+/// panics in threads started by the emulator itself (outside every guarded call)
+pub static EMU_THREAD_PANICS: std::sync::atomic::AtomicUsize = std::sync::atomic::AtomicUsize::new(0);
+pub static LAST_EMU_THREAD_PANIC: std::sync::Mutex<String> = std::sync::Mutex::new(String::new());
 
 /// Install a panic hook that records message + location per thread and prints nothing.
 pub fn install_panic_hook() {
@@ -108,8 +111,18 @@ pub fn install_panic_hook() {
             };
             let loc = info.location().map(|l| format!("{}:{}", l.file(), l.line())).unwrap_or_default();
             if GUARD_DEPTH.with(|d| d.get()) == 0 {
-                // not inside a guarded call into the emulator: the machinery itself panicked - never silent
-                eprintln!("HARNESS ERROR: the check's own code panicked: {} @ {}", msg, loc);
+                let file = info.location().map(|l| l.file().to_string()).unwrap_or_default();
+                let emulator_file = ["src/bus", "src/cpu", "src/elf", "src/ioport", "src/memory", "src/modules", "src/registers", "src/setting", "src/socket"].iter().any(|p| file.starts_with(p));
+                if emulator_file {
+                    // a thread the emulator started itself (socket workers) panicked: counted, judged by C15
+                    EMU_THREAD_PANICS.fetch_add(1, std::sync::atomic::Ordering::SeqCst);
+                    if let Ok(mut g) = LAST_EMU_THREAD_PANIC.lock() {
+                        *g = format!("{} @ {}", msg, loc);
+                    }
+                } else {
+                    // not inside a guarded call into the emulator: the machinery itself panicked - never silent
+                    eprintln!("HARNESS ERROR: the check's own code panicked: {} @ {}", msg, loc);
+                }
             }
             LAST_PANIC.with(|p| *p.borrow_mut() = Some(format!("{} @ {}", msg, loc)));
         }));
